@@ -166,7 +166,9 @@ func runTransport(in J) interface{} {
 	t := pub.NewHttpSigTransport(client, fmt.Sprint(in["appAgent"]), fixedClock{now}, getS, postS, keyID, key)
 	obs := J{}
 	ctx := context.Background()
-	func() {
+	done := make(chan struct{})
+	go func() {
+		defer close(done)
 		defer func() {
 			if r := recover(); r != nil {
 				obs["panic"] = fmt.Sprint(r)
@@ -219,6 +221,12 @@ func runTransport(in J) interface{} {
 			obs["batchesOk"] = oks
 		}
 	}()
+	if !waitDone(done, 5*time.Second) {
+		// the call never returned: report that alone (the stuck goroutines still own obs)
+		return J{"hang": true}
+	}
+	mu.Lock()
+	defer mu.Unlock()
 	sort.SliceStable(dos, func(i, j int) bool { return dos[i].URL < dos[j].URL })
 	sort.SliceStable(sigs, func(i, j int) bool { return sigs[i].URL < sigs[j].URL })
 	var dj, sj []interface{}
